@@ -12,13 +12,18 @@ def model_event(est):
 PAIR_ORDER = [(0, 1), (1, 0), (1, 2), (2, 1), (0, 2), (2, 0), (0, 0), (1, 1), (2, 2)]
 
 
-def triple_event(est, x, y, z, metric=None):
+def triple_event(est, x, y, z, metric=None, dtype=None):
+  """dtype: the type the points are HANDED OVER in (e.g. float32; they must be exactly representable in it)"""
   pts = [np.asarray(x, float), np.asarray(y, float), np.asarray(z, float)]
   pairs = np.array([[pts[i], pts[j]] for i, j in PAIR_ORDER])
-  pd = est.pair_distance(pairs)
-  ps = est.pair_score(pairs)
+  given = pairs if dtype is None else pairs.astype(dtype)
+  if dtype is not None:
+    assert np.array_equal(given.astype(float), pairs)
+  pd = est.pair_distance(given)
+  ps = est.pair_score(given)
   metric = metric or est.get_metric()
-  gm = [metric(pts[i], pts[j]) for i, j in PAIR_ORDER]
+  gpts = pts if dtype is None else [p.astype(dtype) for p in pts]
+  gm = [metric(gpts[i], gpts[j]) for i, j in PAIR_ORDER]
   return {'ev': 'Triple', 'x': dyv(pts[0]), 'y': dyv(pts[1]), 'z': dyv(pts[2]),
           'pd': dyv(pd), 'ps': dyv(ps), 'gm': dyv(gm)}
 
